@@ -150,15 +150,19 @@ func (g *c15Graph) files(r *RNG) (fstest.MapFS, map[string][]string) {
 		}
 		// files that must be ignored
 		if r.Chance(0.3) {
-			fs[p.dir+"/"+Pick(r, []string{"zz_test.go", "aa_test.go", "m_test.go", "0_test.go"})] = &fstest.MapFile{Data: []byte(fmt.Sprintf("package %s\nfunc init() { println(\"BAD test file %s\") }\n", lastPart(p.path), p.path))}
+			fs[p.dir+"/"+Pick(r, []string{"zz_test.go", "aa_test.go", "m_test.go", "0_test.go"})] = &fstest.MapFile{Data: []byte(fmt.Sprintf("package %s\n%s\nfunc init() { println(\"BAD test file %s\") }\n", lastPart(p.path), Pick(r, []string{"", "import \"testing\"\n\nfunc TestX(t *testing.T) {\n\tt.Run(\"a\", func(t *testing.T) { defer func() { recover() }() })\n\tch := make(chan struct{})\n\tclose(ch)\n}\n"}), p.path))}
 		}
 		if r.Chance(0.3) {
 			tag := Pick(r, []string{"!goat", "ignore", "linux", "!goat && linux", "windows || darwin"})
 			hdr := "//go:build " + tag + "\n\n"
-			if r.Bool() {
-				hdr = "// Copyright header.\n\n" + hdr
-			}
-			fs[p.dir+"/excluded.go"] = &fstest.MapFile{Data: []byte(hdr + fmt.Sprintf("package %s\nfunc init() { println(\"BAD excluded file %s\") }\n", lastPart(p.path), p.path))}
+			// the constraint may follow blank lines and comments of both kinds
+			hdr = Pick(r, []string{"", "// Copyright header.\n\n", "/* Licence. */\n", "/*\n * Licence\n * text\n */\n\n// and a line comment\n", "/* a */ /* b */\n/* c\n*/ // d\n"}) + hdr
+			// an excluded file is host code: it need not stay inside the subset the interpreter parses
+			body := Pick(r, []string{"", "", "func Map[T any](xs []T, f func(T) T) []T {\n\tfor i := range xs {\n\t\txs[i] = f(xs[i])\n\t}\n\treturn xs\n}\n",
+				"var ch = make(chan int, 1)\n\nfunc pump() {\n\tgo func() { ch <- 1 }()\n\tselect {\n\tcase v := <-ch:\n\t\t_ = v\n\tdefault:\n\t}\n}\n",
+				"func scan(xs [][]int) int {\nouter:\n\tfor _, r := range xs {\n\t\tfor _, v := range r {\n\t\t\tif v < 0 {\n\t\t\t\tcontinue outer\n\t\t\t}\n\t\t}\n\t}\n\treturn 0\n}\n",
+				"import \"unsafe\"\n\ntype hdr struct {\n\tp unsafe.Pointer\n\tn [4]uintptr\n}\n\nvar _ = (*hdr)(nil)\n", "type I interface {\n\t~int | ~string\n}\n\nconst c = 1i\n"})
+			fs[p.dir+"/excluded.go"] = &fstest.MapFile{Data: []byte(hdr + fmt.Sprintf("package %s\n%s\nfunc init() { println(\"BAD excluded file %s\") }\n", lastPart(p.path), body, p.path))}
 		}
 		if r.Chance(0.15) {
 			tag := Pick(r, []string{"goat", "goat || linux", "!windows && goat", "!ignore"})
